@@ -44,8 +44,11 @@ def enum_fields(ctx):
                         # contexts: random contents of every other MB bit, plus the boundary contents all-zero / all-one / alternating
                         fixed = [0, (1 << 56) - 1, 0xAAAAAAAAAAAAAA, 0x55555555555555]
                         mbs = [rng.getrandbits(56) for _ in range(k)] + [fixed[(raw + j) % 4] for j in range(2)]
+                        # one context per field that is the same for every raw value: consecutive frames then differ in the field only
+                        rrow = ctx.rng("row", ri)
+                        same = [rrow.getrandbits(56), rrow.getrandbits(27), rrow.getrandbits(24), 20, "U"]
                         yield {"row": ri, "raw": raw, "status": status, "sign": sign,
-                               "ctx": [[m0, rng.getrandbits(27), rng.getrandbits(24), rng.choice([20, 21]), rng.choice("ULM")] for m0 in mbs]}
+                               "ctx": [[m0, rng.getrandbits(27), rng.getrandbits(24), rng.choice([20, 21]), rng.choice("ULM")] for m0 in mbs] + [same]}
 
 
 def same(a, b):
